@@ -248,6 +248,6 @@ MANIFEST = {
             "onto curve points, and every published constant is the standard one and shared by both modules. Associativity of the "
             "table (hence of the code, path by path) is decided as formal identities on the generic stratum and the "
             "codimension-one strata (thorough tier; quick: codimension-one only); deeper degenerate strata are not decided.",
-    "note": "Layered on C08 (field operators are ring operations). Oracle: affine table, BN/BLS parameter polynomials, generator "
+    "note": "A function the multiply ladder applies to two points (other than add) is held to the whole group law on every stratum; ladder forms: recursive, range-indexed, right-to-left while, bin()-digits, peeled digit list. Functions that return constants of a concrete field class are decided once per coordinate class (FQ, FQ2, FQ12). Layered on C08 (field operators are ring operations). Oracle: affine table, BN/BLS parameter polynomials, generator "
             "literals. Trusted: evaluator model, checker's polynomial / tower / modular arithmetic.",
 }
